@@ -115,7 +115,7 @@ def struct_unit(v, names, tier, res):
             segs = ['MSH'] + [s for s in segs if s != 'MSH']
         base = [st.msh_line(v, name)] + [body(v, s) for s in segs[1:]]
         fs = foreign_segment(v, name)
-        inserts = [('z', 'ZZZ|1|z'), ('garbled', 'Q9Q|1')]
+        inserts = [('z', 'ZZZ|1|z'), ('garbled', 'Q9Q|1'), ('z-long', 'ZZZ|1|2|3|4|5|6|7|8|9|10|11|12|13')]
         if fs:
             inserts.append(('foreign', body(v, fs, 9)))
         for pos in range(1, len(base) + 1):
@@ -128,6 +128,24 @@ def struct_unit(v, names, tier, res):
         res.states += 1
         res.enumerated += 1
         judge(res, v, name, '\r'.join(base), 'base', len(base))
+        # the same insertions into the instance with every repeatable group twice (a line right after the first segment of a
+        # later repetition, between repetitions, ...) - one line kind per position, rotating
+        if tier != 'quick' or v in ('2.5', '2.7') or sum(map(ord, name)) % 4 == 0:
+            trees2 = [t for label, t in st.instances(v, name, ('rep2',))]
+            if trees2:
+                segs2 = st.flatten(trees2[0])
+                if segs2 and segs2[0] != 'MSH':
+                    segs2 = ['MSH'] + [s for s in segs2 if s != 'MSH']
+                if len(segs2) > len(segs) and len(segs2) <= 60:
+                    base2 = [st.msh_line(v, name)] + [body(v, s, k) for k, s in enumerate(segs2[1:], 1)]
+                    for pos in range(1, len(base2) + 1):
+                        kind, line = inserts[pos % len(inserts)]
+                        lines = base2[:pos] + [line] + base2[pos:]
+                        res.states += 1
+                        res.enumerated += 1
+                        res.nontrivial += 1
+                        judge(res, v, name, '\r'.join(lines), '%s-in-rep2:pos%d' % (kind, pos), len(lines))
+                    res.dims['structures with rep2 insertions'] += 1
         res.dims['structures'] += 1
     res.sample({'v': v, 'structures': list(names)[:3]}, cap=3)
 
@@ -175,6 +193,8 @@ def excess_unit(v, res):
             cases.append(('subcomponents-in-base-field', 'PID|' + '|' * (i - 1) + 'a&b'))
             break
     cases.append(('repetitions-beyond-max', 'PID|1~2~3'))
+    cases.append(('z-segment-13-fields', 'ZZZ|1|2|3|4|5|6|7|8|9|10|11|12|13'))
+    cases.append(('z-segment-sparse', 'ZZZ||2||||||||||12|13'))
     for tag, line in cases:
         res.states += 1
         res.enumerated += 1
